@@ -100,14 +100,15 @@ def eval_pair(alpha, outer, inner, uva, uvk, st):
         st.violation(kind, case, detail)
         return detail
 
-    if status in ('valueerror', 'other'):
-        st.inc('raised:%s(C15)' % status)
+    if status == 'other':
+        st.inc('raised:other(C15)')
         return None
     excl = alpha.excluded(outer) | alpha.excluded(inner)
     T = forwarding_truth(alpha, outer, inner, uva, uvk)
     st.inc('evaluations', alpha.size)
-    if status == 'incompat':
-        st.inc('raised:incompat')
+    if status in ('incompat', 'valueerror'):
+        # whatever ValueError it is (its class is C15's business): refusing must be justified
+        st.inc('raised:' + status)
         clash = set(space.names_of(outer)) & set(space.names_of(inner))
         if not clash and T & ~excl:
             n, K = alpha.first(T & ~excl)
